@@ -110,6 +110,9 @@ func renderGoFile(structs [][]ttField) string {
 		b.WriteString("}\n\n")
 	}
 	b.WriteString("type Inner struct{}\ntype other struct{}\n")
+	// … and far from gofmt's layout: runs of blank lines (gofmt keeps one), so that the rewritten file is
+	// SHORTER than the input it replaces
+	b.WriteString(strings.Repeat("\n", 40) + "var   _    =    0\n" + strings.Repeat("\n", 25))
 	return b.String()
 }
 
@@ -386,7 +389,9 @@ func oracleTagtool(op *Sexp, res string) []string { return lastTagtoolOracle }
 var ttTags = []string{`json:"a"`, `json:"-"`, `sql:"-"`, `json:"b,omitempty" sql:"c"`, `plenc:"1"`, `plenc:"3"`, `plenc:"7,flat"`, `plenc:"-"`,
 	`json:"x" plenc:"2"`, `plenc:"12" json:"-"`, ``, ` `, `yaml:"q"`, `json:"a,omitempty"`, `db:"col" json:"-" sql:"-"`, `plenc:"0"`,
 	`json:"a"`, `json:"-"`, `sql:"-"`, `plenc:"5"`, `plenc:"2,intern" json:"n"`, `xml:"e" json:"e"`, `plenc:"40"`, `json:"k"  sql:"k"`,
-	`sql:"password_hash" json:"-"`, `plenc:"536870911"`, `plenc:"536870910"`, `plenc:"536870911" json:"top"`, `json:"-" sql:"col"`, `sql:"-" json:"shown"`, `json:"-,"`, `sql:"-,omitempty"`, `json:"a,"`}
+	`sql:"password_hash" json:"-"`, `plenc:"536870911"`, `plenc:"536870910"`, `plenc:"536870911" json:"top"`, `json:"-" sql:"col"`, `sql:"-" json:"shown"`, `json:"-,"`, `sql:"-,omitempty"`, `json:"a,"`,
+	// indexes with leading zeros are decimal (strconv.Atoi), whatever they look like
+	`plenc:"010"`, `plenc:"007,intern"`, `plenc:"0017"`, `plenc:"00"`}
 
 // rare: malformed tags (the tool must report an error, not crash)
 var ttBadTags = []string{`plenc:"x"`, `json:"unterminated`, `bad tag`, `plenc:`, `:"v"`, `plenc:"1" json`}
